@@ -725,4 +725,24 @@ def _nested(case, res):
         if est2.get_params(deep=True).get(key) is not repl:
             res.violate(name + ":replace:readback:" + key, "replaced component not read back",
                         observed=repr(est2.get_params(deep=True).get(key))[:100])
+    # replace every PAIR of named components in ONE set_params call
+    comps = [k_ for k_, v_ in sorted(make().get_params(deep=True).items())
+             if "__" not in k_ and isinstance(v_, BaseEstimator)
+             and k_ not in make().get_params(deep=False)]
+    for ka, kb in itertools.combinations(comps, 2):
+        est2 = make()
+        ra = NaiveForecaster(strategy="mean", window_length=3)
+        rb = NaiveForecaster(strategy="drift")
+        s = call(lambda: est2.set_params(**{ka: ra, kb: rb}))
+        res.transitions += 1
+        if not s.ok:
+            res.violate(name + ":replace2:" + ka + "+" + kb, "replacing two components in one "
+                        "set_params call raised", observed=s.brief())
+            continue
+        res.nt((name, "replace2", ka, kb))
+        got = est2.get_params(deep=True)
+        if got.get(ka) is not ra or got.get(kb) is not rb:
+            res.violate(name + ":replace2:readback", "two components replaced by name in one "
+                        "set_params call are not both read back",
+                        expected=[ka, kb], observed=[repr(got.get(ka))[:60], repr(got.get(kb))[:60]])
     return res
